@@ -1,11 +1,13 @@
 #!/bin/bash
 # Applies every stored seeded change (seeded/<id>[-rN]/patch.diff) to /repo in turn and runs the quick check of ITS property.
 # Prints one line per change; exits 1 if any change is not caught. Evidence files are restored from git afterwards.
+# usage: seed_own.sh [Cxx ...]   (default: all properties)
 cd "$(dirname "$0")/.."
 if [ -n "$(git -C /repo status --porcelain)" ]; then echo "/repo working tree is not clean"; exit 2; fi
 rc=0
 for d in $(ls seeded | grep '^C' | sort); do
   id=${d%%-*}
+  if [ $# -gt 0 ] && ! echo " $* " | grep -q " $id "; then continue; fi
   git -C /repo apply $PWD/seeded/$d/patch.diff || { echo "$d: patch does not apply"; rc=1; continue; }
   if bin/check $id --tier quick > /var/tmp/seed_own.log 2>&1; then echo "$d: NOT CAUGHT"; rc=1; else echo "$d: caught ($(grep -c '^VIOLATION' /var/tmp/seed_own.log) violation lines)"; fi
   git -C /repo checkout -- . && git -C /repo clean -fdq
